@@ -164,9 +164,9 @@ INFO = {
         "rulefn": _field_rule,
         "trusted": ["maximality of the order is not re-verified here (C06); the oracle checks that B is a ring basis with first vector 1 containing Z[theta] and that its structure constants are T",
                     "Ideal has no accessor for its HNF: the harness reads it from the derived Debug output and re-validates each extraction with HNF::new(rows) == rows"],
-        "gaps": ["norm multiplicativity, norm of a principal ideal = |norm of the generator|, I * I^-1 = (d) for the inverse routine and d^n / norm(numer(D)) = |disc| for the inverse different are not theorems (Dedekind-domain facts): certified on every explored case by Spec.Ideal (exact lattice computations, spec-side products)"],
+        "gaps": ["norm multiplicativity is a theorem under the hypothesis that the ring defined by the table is a Dedekind domain / integrally closed (what 'maximal order' provides; kernel-checked counterexample in Z[sqrt(-3)] shows it cannot be dropped) — that the Round 2 output's table is integrally closed is not proved (C06); I * I^-1 = (d) for the inverse routine is not a theorem: both certified on every explored case by Spec.Ideal (exact lattice computations, spec-side products)"],
         "assumptions": ["ideals of a maximal order given by HNF bases relative to an integral basis whose first vector is 1"],
-        "level_text": "Theorems about the Lean model of ideal.rs for every multiplication table of the right shape (ring axioms of the table where stated, as the decidable predicate TableRing): sum = smallest lattice containing both; product = lattice spanned by all pairwise products (never an error); product commutative and associative and distributive over sum as equalities of the returned HNFs; principal ideals, sums and products of O-ideals are O-ideals; `contains` answers true exactly for members of the lattice; cap_z is the positive generator of the ideal's integers; norm = lattice index. Model tied to the code by differential testing (canonical HNF outputs compared textually) and each output decided by an independent oracle.",
+        "level_text": "Theorems about the Lean model of ideal.rs and get_inv_diff for every multiplication table of the right shape (ring axioms of the table where stated, as the decidable predicate TableRing): sum = smallest lattice containing both; product = lattice spanned by all pairwise products (never an error); product commutative, associative, distributive over sum as equalities of the returned HNFs; principal ideals, sums, products of O-ideals are O-ideals; `contains` <=> membership; cap_z = positive generator of I meet Z; norm = lattice index = |O/I| = Mathlib's Ideal.absNorm of the corresponding ideal of the ring built from the table; norm of a principal ideal = |norm of the generator| (generator of non-zero norm); norm multiplicative for Dedekind tables (Z[i] instance proved Dedekind); inverse different: get_inv_diff returns (d, H) exactly when the trace matrix is non-singular, with d^n = norm(H) * |disc| where disc = det(trace matrix) = the order's discriminant (any f, any order basis), and H = d * (dual lattice under the trace form). Model tied to the code by differential testing; each output decided by an independent oracle.",
         "level_note": "Trusted: Lean kernel + 3 standard axioms; correspondence coverage. Partial: ring-theoretic clauses are certified per explored case, not proved.",
     },
     "C17": {
@@ -184,10 +184,10 @@ INFO = {
         "rule": "all integer polynomials with <= 5 coefficients in a small range; products of 1..4 factors irreducible by construction (Eisenstein, irreducible modulo a prime, cyclotomic, Swinnerton-Dyer type x^4+1, x^4-10x^2+1, degree 8 and 16) with multiplicities up to 12 (>= 7 included), contents, negative and non-monic leading coefficients, large coefficients, x^n - 1, zero and constants, 25 and 26 linear factors (recombination limit); the random history of factorize_mod_p inside is captured and replayed into the model; CLI (to_find = factorization, polynomials) as a process. Non-trivial: degree >= 2.",
         "rulefn": _c07_rule,
         "trusted": ["hooked RNG + Lean draw decoder", "irreducibility certificates of the oracle: degree 1; irreducible modulo a prime (Rabin test / brute force); incompatible factor-degree sets modulo several primes; brute-force divisor search for small cases; otherwise the construction-time expectation supplied by the harness (191 of 5093 quick cases)"],
-        "gaps": ["irreducibility over Q of the returned factors (Mignotte-type bound, Hensel uniqueness, exhaustive recombination) is not proved; the full product identity c * prod f_i^e_i = a is a theorem only under that irreducibility plus the gcd exactness flag of C10 (the multiplicity loop silently drops a final cofactor, which is 1 exactly when the factors are irreducible): both are certified on every explored case by the oracle (exact product, irreducibility certificates, true multiplicities)", "termination of the prime search and of the modular factoriser is not proved"],
+        "gaps": ["termination of the prime search and of the modular factoriser (random splitting) is not a theorem: the theorems are about runs that return, for every stream of draws; the degree limit 25 of the recombination (an assertion in the code) is outside the theorems' scope only in the sense that such runs do not return"],
         "assumptions": ["squarefree part of degree <= 25 modular factors (the implementation asserts lifted.len() <= 25; beyond that the oracle skips)"],
-        "level_text": "Theorems for every non-zero canonical a and every stream of draws about the Lean model of poly_z/mod.rs, for runs that return (c, fs): unconditionally — c != 0 has the sign of lc(a) and |c| = content(a); every returned f is canonical, non-constant, primitive and divides a; c * r * prod f^e = a for a cofactor r which no returned f divides (so no exponent is too small relative to what is left); under the C10 exactness flag — positive leading coefficients, e >= 1, the f pairwise coprime and distinct with squarefree product, and every e is the true multiplicity of f in a; under the flag and irreducibility of the returned factors — c * prod f^e = a exactly. Zero and constants. Model tied to the code by replaying the captured random history (whole routine, and get_factors_of_squarefree through a wrapper); every output decided by an independent oracle.",
-        "level_note": "Trusted: Lean kernel + 3 standard axioms; RNG hook/decoder; correspondence coverage. Partial: irreducibility and completeness are certified per explored case, not proved.",
+        "level_text": "Full theorems about the Lean model of poly_z/mod.rs (Berlekamp-Zassenhaus) for every non-zero canonical a and EVERY stream of draws, for runs that return (c, fs): every returned factor is irreducible in Z[x] and over Q, canonical, non-constant, primitive with positive leading coefficient; the factors are pairwise distinct and coprime; every exponent is >= 1 and is the true multiplicity; c is the signed content; c * prod f^e = a EXACTLY; and the factorisation is complete (every irreducible divisor of positive degree is associated to exactly one returned factor). Proved via: the Landau-Mignotte bound (Mathlib's Mahler measure) instantiated for the routine's coefficient bound, uniqueness of Hensel lifting (subsets of lifted factors <-> divisors), the recombination loop invariant (subsets of increasing size, symmetric residues), the prime search (a genuine prime < 2^31 not dividing lc with a squarefree mod p), the fully verified modular factoriser (C08) and lifting (C11), and the unconditional integer gcd (C10). Zero and constants. Model tied to the code by replaying the captured random history; outputs also decided by an independent oracle; CLI cases.",
+        "level_note": "Trusted: Lean kernel + 3 standard axioms; Mathlib (Mahler measure, Gauss lemma, UFD); RNG hook/decoder; correspondence coverage.",
     },
     "C20": {
         "rule": "lll on integer bases of dimension 2..8: plain random, nearly dependent rows, already reduced, unimodular images of reduced bases, knapsack-type, identity (entries up to 10^4 for the ill-conditioned families, larger for well-conditioned ones in the thorough tier; only non-singular bases, checked with an exact determinant); find_short_vectors / find_value on Gram matrices B*B^T of dimension <= 5 with bounds c = k + 1/2; find_muk on cyclotomic fields Phi_3..Phi_30, imaginary and real quadratic, cubic, quartic, quintic..octic fields with a real embedding and some totally complex fields, each repeated over the (hooked, seeded) random Newton starts. Non-trivial: a matrix argument or a polynomial of degree >= 2; distinct = distinct (op,args).",
